@@ -483,10 +483,17 @@ def run_impl(doc, items, vars_=None, again=False):
     pipe = ProcessingPipeline.from_dict(pd)
     rule = SigmaRule.from_dict(copy.deepcopy(doc))
     b = V.make_backend_class(K)(pipe)
+    if again:  # another rule (other log source) went through the same backend and pipeline objects before
+        other = copy.deepcopy(doc)
+        other["logsource"] = {"category": "othercat", "product": "linux", "service": "svc"}
+        other["title"] = "earlier"
+        try:
+            b.convert_rule(SigmaRule.from_dict(other))
+        except Exception:
+            pass
+        if again == "twice":
+            b.convert_rule(SigmaRule.from_dict(copy.deepcopy(doc)))
     qs = b.convert_rule(rule)
-    if again:  # a second, freshly loaded copy of the rule through the same backend and pipeline objects
-        rule = SigmaRule.from_dict(copy.deepcopy(doc))
-        qs = b.convert_rule(rule)
     lp = b.last_processing_pipeline
     ls = {k: v for k, v in rule.logsource.to_dict().items() if k in ("category", "product", "service")}
     return qs, {"fields": list(rule.fields), "logsource": ls, "state": dict(lp.state), "custom": dict(rule.custom_attributes)}
@@ -541,12 +548,14 @@ def judge(res, rname, product, steps, label):
         return
     identity = all(s[4] or s[5][0] == "rule-false" for s in steps)
     res["outcomes"].add(h64(qs))
-    try:
-        again = run_impl(doc, items, again=True)
-    except Exception as e:
-        again = ("raised", type(e).__name__, str(e)[:150])
-    if again != (qs, attrs):
-        add_violation(res, f"second-rule-through-same-pipeline-differs:{label}", case, [qs, attrs], again)
+    for mode in (True, "twice"):
+        try:
+            again = run_impl(doc, items, again=mode)
+        except Exception as e:
+            again = ("raised", type(e).__name__, str(e)[:150])
+        if again != (qs, attrs):
+            add_violation(res, f"second-rule-through-same-pipeline-differs:{label}", dict(case, earlier="other log source" if mode is True else "other log source, then the same rule"), [qs, attrs], again)
+            break
     if identity:
         if base_qs is not None and qs != base_qs:
             m2 = "unexplained"
